@@ -485,6 +485,12 @@ char * label_from_header(const char * source, token * t, scratch_pad * scratch) 
 
 	if (temp_token) {
 		result = label_from_token(source, temp_token);
+
+		if (scratch->extensions & EXT_RANDOM_LABELS) {
+			// Count every header, so that the counter is the header's index
+			// (which is what the table of contents uses for the same header)
+			scratch->label_counter++;
+		}
 	} else {
 		if (scratch->extensions & EXT_RANDOM_LABELS) {
 			srand(scratch->random_seed_base_labels + scratch->label_counter);
